@@ -86,6 +86,15 @@ def convKeys (e : Event) : Option (List Bytes) := do
   let tagKeys := (e.tags.filter isIndexableTag).map fun t => tagKey (t.getD 0 []) (t.getD 1 [])
   pure ([[1] ++ ts, [2] ++ kd, [3] ++ e.pubkey, [4] ++ e.pubkey ++ [0] ++ kd] ++ tagKeys)
 
+/-- `2 + len(created_at.to_bytes(4, "big")) + len(id_bytes)`: what `Index.write` appends to a `convert()` key -/
+def keySuffix : Nat := 2 + 4 + 32
+
+/-- `check_storable(event)`; `recordOk` = `encode_event(event)` does not raise (Model/MsgPack: `packable` of the event's row) -/
+def checkStorable (e : Event) (recordOk : Bool) : Bool :=
+  recordOk && (match convKeys e with
+    | none => false                                  -- created_at / kind do not fit four bytes: `to_bytes` raises
+    | some ks => ks.all fun k => decide (k.length + keySuffix ≤ maxKeySize))
+
 /-- `Index.write`: `key ++ 00 ++ ctime ++ 00 ++ id` -/
 def fullKey (conv ts id : Bytes) : Bytes := conv ++ [0] ++ ts ++ [0] ++ id
 
